@@ -74,7 +74,25 @@ def run_property(prop: str, tier: str, only: tuple | None = None) -> int:
         for o in hit:
             print(json.dumps(o.as_dict(), ensure_ascii=False))
         return 1 if hit else 0
+    if tier == "thorough" and not os.environ.get("GSA_NO_EVIDENCE"):
+        # validate the checker itself on the seeded corpus (scratch copies of HEAD); informational, never a verdict on /repo
+        try:
+            from . import selftest
+            st = selftest.run([prop])
+            summ = st.get("summary", {})
+            extra["selftest"] = {k: v for k, v in summ.items() if k != "failed"}
+            extra["selftest"]["failed_variants"] = [r["variant"] for r in summ.get("failed", [])]
+            print(f"selftest[{prop}]: breaking {summ.get('breaking_reported')}/{summ.get('breaking_total')} reported, "
+                  f"neutral {summ.get('neutral_silent')}/{summ.get('neutral_total')} silent, skipped {summ.get('skipped')}")
+        except Exception as e:  # the self-test must never change the verdict
+            extra["selftest"] = {"error": f"{type(e).__name__}: {e}"}
     wall = time.time() - t0
+    if os.environ.get("GSA_NO_EVIDENCE"):
+        for ln in known_lines:
+            print(ln)
+        for ob in violations:
+            print(f"  REFUTED {ob.rule} [{ob.instance}] at {ob.file}:{ob.line} in {ob.function or '?'}")
+        return 1 if violations else 0
     write_evidence(prop, tier, level, rep, wall, len(violations), meta.get("explanation", ""),
                    meta.get("assumptions", []), extra, known_lines)
     for ln in known_lines:
